@@ -3,7 +3,6 @@ package patch
 import (
 	"errors"
 	"fmt"
-	"strings"
 
 	dtpb "github.com/google/fhir/go/proto/google/fhir/proto/r4/core/datatypes_go_proto"
 	"github.com/iancoleman/strcase"
@@ -594,17 +593,17 @@ func (e *Expression) getRefAndFieldForCollection(collection system.Collection, t
 func (e *Expression) unwrapOneof(obj proto.Message) proto.Message {
 	message := obj.ProtoReflect()
 	descriptor := message.Descriptor()
-	if name := string(descriptor.Name()); !(strings.HasSuffix(name, "ValueX") || name == "ContainedResource") {
-		return obj
+	// Choice wrappers (Patient.deceased[x], Observation.value[x], …) hold their
+	// value in a oneof named "choice"; a ContainedResource in its single oneof.
+	oneof := descriptor.Oneofs().ByName("choice")
+	if oneof == nil {
+		if descriptor.Name() != "ContainedResource" || descriptor.Oneofs().Len() != 1 {
+			return obj
+		}
+		oneof = descriptor.Oneofs().Get(0)
 	}
-	oneofsNum := descriptor.Oneofs().Len()
-	if oneofsNum != 1 {
-		return obj
-	}
-
-	oneof := descriptor.Oneofs().Get(0)
 	field := message.WhichOneof(oneof)
-	if oneof == nil || field == nil {
+	if field == nil {
 		return obj
 	}
 	if msg := message.Get(field).Message(); msg != nil {
